@@ -785,7 +785,7 @@ func classifyDeath(stderr string, werr error) (kind, site string) {
 	case strings.Contains(stderr, "VERIF-WATCHDOG"):
 		return "watchdog", "case-timeout"
 	case strings.Contains(stderr, "stack overflow") || strings.Contains(stderr, "goroutine stack exceeds"):
-		return "fatal:stack-overflow", fatalSite(stderr)
+		return "fatal:stack-overflow", recursionSite(stderr)
 	case strings.Contains(stderr, "out of memory") || strings.Contains(stderr, "cannot allocate memory"):
 		return "fatal:oom", fatalSite(stderr)
 	case strings.Contains(stderr, "concurrent map"):
@@ -801,6 +801,40 @@ func classifyDeath(stderr string, werr error) (kind, site string) {
 		return "exit:" + werr.Error(), "unknown"
 	}
 	return "exit:no-done-record", "unknown"
+}
+
+// recursionSite returns the most frequent non-runtime function in a stack
+// dump, preferring third-party / module code: a stable name for a runaway recursion.
+func recursionSite(stderr string) string {
+	cnt := map[string]int{}
+	for _, l := range strings.Split(stderr, "\n") {
+		l = strings.TrimSpace(l)
+		if l == "" || strings.HasPrefix(l, "/") || !strings.Contains(l, "(") || strings.HasPrefix(l, "runtime") || strings.HasPrefix(l, "goroutine") {
+			continue
+		}
+		if i := strings.LastIndex(l, "("); i > 0 {
+			l = l[:i]
+		}
+		cnt[l]++
+	}
+	best, bestN, bestMod := "unknown", 0, false
+	for f, n := range cnt {
+		first := f
+		if i := strings.Index(first, "/"); i >= 0 {
+			first = first[:i]
+		}
+		mod := strings.Contains(first, ".") && strings.Contains(f, "/")
+		if n < 3 {
+			continue
+		}
+		if (mod && !bestMod) || (mod == bestMod && (n > bestN || (n == bestN && f < best))) {
+			best, bestN, bestMod = f, n, mod
+		}
+	}
+	if j := strings.LastIndex(best, "/"); j >= 0 {
+		best = best[j+1:]
+	}
+	return best
 }
 
 // fatalSite extracts the first non-runtime function of the first goroutine dump.
@@ -948,6 +982,14 @@ func finish(ck *Check, agg *Aggregate, t0 time.Time, replay bool) int {
 		fmt.Printf("  [%s] case %d class=%s fp=%s: %s\n", agg.ID, v.Idx, v.Class, v.FP, firstN(v.Msg, 400))
 	}
 
+	if len(fresh) > 0 {
+		var fps []string
+		for fp, n := range fpCount {
+			fps = append(fps, fmt.Sprintf("%s x%d", fp, n))
+		}
+		sort.Strings(fps)
+		fmt.Printf("  [%s] violation fingerprints: %s\n", agg.ID, strings.Join(fps, "; "))
+	}
 	if !replay {
 		writeEvidence(ck, agg, t0, len(fresh), knownSeen)
 	}
